@@ -373,6 +373,9 @@ var c07FaxSchemes = []pdf.FilterCCITTFax{
 	{K: 0, EndOfLine: true},
 	{K: -1},
 	{K: -1, EncodedByteAlign: true},
+	// T.6 data has no end-of-line codes, whatever the flag says
+	{K: -1, EndOfLine: true},
+	{K: -1, EndOfLine: true, EncodedByteAlign: true},
 }
 
 func c07Fax(c *kit.Case, rg *kit.Rand, f pdf.FilterCCITTFax, v pdf.Version, rows [][]byte, wsize int) {
